@@ -49,10 +49,10 @@ func c07RealKeys(g *Gen) []c07Real {
 			g.Fail("NewSigner and NewVerifier disagree on the validity of a key name", skey+" "+vkey, "note.newverifier "+hx(vkey))
 			continue
 		}
-		if err1 != nil && !c07NameOK(nm) {
-			// an invalid name: Sign must refuse a signer carrying it as well
-			if _, err := note.Sign(&note.Note{Text: "x\n"}, &c07Signer{nm, 1, 'f'}); err == nil {
-				g.Fail("Sign accepts a signer name that NewSigner rejects", hx(nm))
+		if err1 != nil {
+			// GenerateKey output can only be rejected for its name; Sign must then refuse that name too
+			if c07NameOK(nm) {
+				g.Fail("NewSigner rejects a generated key whose name Sign accepts", hx(nm))
 			}
 			continue
 		}
